@@ -7,7 +7,6 @@ Definition task_eqb (a b : task) : bool :=
   match a, b with
   | TClientAuth m, TClientAuth n => m =? n
   | TChangePw, TChangePw => true
-  | TFinishUA b1 m1 p1, TFinishUA b2 m2 p2 => Bool.eqb b1 b2 && (m1 =? m2) && (p1 =? p2)
   | TServerPw u1 p1, TServerPw u2 p2 => (u1 =? u2) && (p1 =? p2)
   | _, _ => false
   end.
@@ -78,7 +77,11 @@ Fixpoint feed_chunk (s : st) (l : list (Z * Z * bool)) : st * bool :=
   | [] => (s, false)
   | (t, cls, mal) :: r =>
     let s1 := step s (if t =? -1 then EvVersion else EvRecv t cls) in
-    let '(s2, m2) := feed_chunk s1 r in (s2, mal || m2)
+    (* _process_kexinit and _process_userauth_request hand a coroutine back: asyncssh buffers the rest of the chunk
+       until that task has finished, and every task that became ready before its completion callback runs first
+       (the harness applications never suspend) - so such a packet inside a chunk is followed by a settle point *)
+    let s1' := match r with [] => s1 | _ => if (t =? 20) || (t =? 50) then step s1 EvSettle else s1 end in
+    let '(s2, m2) := feed_chunk s1' r in (s2, mal || m2)
   end.
 
 Definition model_step (s : st) (chunk : list (Z * Z * bool)) : st * list (Z * Z) * bool * bool :=
